@@ -274,6 +274,9 @@ class MPSLinear(nn.Linear, MPSModule):
         # TODO: detach to be double-checked
         v['in_channels'] = self.input_features_calculator.features.detach()
         v['out_channels'] = self.out_features_eff
+        # cost functions use the hyper-parameter names of the original nn.Linear layer
+        v['in_features'] = v['in_channels']
+        v['out_features'] = v['out_channels']
         return v
 
     def get_cost(self, cost_fn: CostFn, out_shape: Dict[str, Any]) -> torch.Tensor:
